@@ -243,6 +243,10 @@ def check_resolve_clip_path(repo: Repo, rep: Report, rule: str):
         nested = ops[1]
         if "SVGEllipse" not in repr(nested):
             probs.append("the clipPath's own clip-path (url(#d)) is not what the region is intersected with")
+        else:
+            nk = clip_children(nested)
+            if [k[1] for k in nk] != [("parse(tC)", "CTM")]:
+                probs.append(f"the clipPath's own clip-path is placed by {[k[1] for k in nk]}; it applies in the coordinate system of the clipPath that references it: its transform, then the referencing element's CTM (parse(tC), CTM)")
         if not probs:
             n_ok += 1
     if probs:
@@ -1308,7 +1312,11 @@ def _pipeline_doc():
     # a kept group whose opacity would become 1 if it were rounded to the 3 digits in use: the keep decision and what a second pass sees must agree
     gr = El("g", {"opacity": "0.9996", "id": "gr"}, [El("path", {"id": "pr1", "d": pd(("M", (95, 80)), ("L", (97, 80)), ("L", (97, 82)), ("Z", ()))}),
                                                     El("path", {"id": "pr2", "d": pd(("M", (95, 90)), ("L", (97, 90)), ("L", (97, 92)), ("Z", ())), "opacity": "0.4996"})], name="gr")
-    root = El("svg", {"viewBox": "0 0 100 100", "fill": "red", "{http://example.com/ns}attr": "x"}, junk + [defs, ga, gb, r, u, z2, ev, st, nested, cl, hidden, uf, us, gt, gc, po, gr], name="root")
+    # ... and one whose opacity is even closer to 1 (any rounding to fewer than 7 digits makes it 1), below a dissolved single-child group
+    gs = El("g", {"opacity": "0.9999996", "id": "gs"}, [El("path", {"id": "ps1", "d": pd(("M", (85, 80)), ("L", (87, 80)), ("L", (87, 82)), ("Z", ()))}),
+                                                       El("path", {"id": "ps2", "d": pd(("M", (85, 90)), ("L", (87, 90)), ("L", (87, 92)), ("Z", ()))})], name="gs")
+    gso = El("g", {"id": "gso", "opacity": "1"}, [gs], name="gso")
+    root = El("svg", {"viewBox": "0 0 100 100", "fill": "red", "{http://example.com/ns}attr": "x"}, junk + [defs, ga, gb, r, u, z2, ev, st, nested, cl, hidden, uf, us, gt, gc, po, gr, gso], name="root")
     return root
 
 
